@@ -19,6 +19,7 @@ RULES = [
     (r"^layout/A1=10$", "KF-C08-blank-inside-decimal-literal"),
     (r"^layout/A1=1\.5E\+3$", "KF-C08-blank-inside-decimal-literal"),
     (r"^rule-kind/exp/A1\*2$", "KF-C14-BinaryExp-always-string-kinded"),
+    (r"^declared/scalar DIMmed in two statements", "KF-C10-scalar-DIMmed-in-two-statements"),
     (r"^declared/(argument of|READ target|INPUT target|LINE INPUT target|subscript of a READ target)", "KF-C10-names-in-untraversed-positions-undeclared"),
     (r"^user-text/comment that mentions a call", "KF-C13-RUN-in-comment-counts-as-a-call"),
     (r"^(helpers/)?string/counts -2\.\.255, declared capacity 32$", "KF-C20-STRING$-result-cut-to-declared-capacity"),
